@@ -15,3 +15,11 @@ package types
 //@      ==> 0 <= FindMemberSlot(from, to) && FindMemberSlot(from, to) <= n - 2
 //@ lemma C04.slot_inj: forall from tss.MemberID, to1 tss.MemberID, to2 tss.MemberID :: 1 <= from && 1 <= to1 && 1 <= to2 && to1 != to2 && to1 != from && to2 != from
 //@      ==> FindMemberSlot(from, to1) != FindMemberSlot(from, to2)
+
+// Store key functions (x/tss/types/keys.go): constant prefix || fixed-width / length-prefixed fields.
+// govc treats them as injective with pairwise disjoint ranges; the key-layout ground check inspects
+// their bodies.
+//@ keyfns GroupStoreKey DKGContextStoreKey MemberStoreKey Round1InfoCountStoreKey Round1InfoStoreKey
+//@   AccumulatedCommitStoreKey Round2InfoStoreKey Round2InfoCountStoreKey ConfirmStoreKey
+//@   ComplainsWithStatusStoreKey ConfirmComplainCountStoreKey DEStoreKey DEQueueStoreKey SigningStoreKey
+//@   PartialSignatureCountStoreKey PartialSignatureStoreKey SigningAttemptStoreKey
